@@ -33,7 +33,7 @@ ASSUMPTIONS = [
 ]
 REQUIRED = {"image.judged": 2000, "image.cut-in-header": 100, "image.cut-in-key": 100, "image.cut-in-value": 500,
             "recovery.judged": 1000, "second-crash.judged": 200, "rawwrite.sessions": 20, "sigkill.judged": 8,
-            "image.via-collection": 500}
+            "image.via-collection": 500, "same-object.judged": 1000}
 CHUNK_TIMEOUT = 1200
 TECHNIQUE = "runtime monitoring: crash-point enumeration over the recorded append byte stream + recovery oracle + real SIGKILL"
 LEVEL_TEXT = ("Every byte prefix of the recorded byte stream of real append sessions is turned into a crash image and the real "
@@ -269,6 +269,49 @@ class Judge:
         return present
 
 
+def same_object_history(J, ctx, path, image, via, bufsize, cdict, sdict, where):
+    """reopen 'a' (no put), reopen 'r', reopen 'a' + put, reopen 'r' -- all on one UKVFile / Collection object"""
+    path.write_bytes(image)
+    ctx.count("same-object.judged")
+    fresh_k, fresh_v = b"same-object-fresh", b"S" * 7
+    try:
+        if via == "ukv":
+            from molli.storage.ukvfile import UKVFile
+
+            f = UKVFile(path, mode="a")
+            f.close()
+            f.open("r")
+            shown = {k: f.get(k) for k in list(f.keys())}
+            f.close()
+            present = J.judge(shown, cdict, sdict, "same-object-reopen", where)
+            f.open("a")
+            f.put(fresh_k, fresh_v)
+            f.close()
+            f.open("r")
+            shown = {k: f.get(k) for k in list(f.keys())}
+            f.close()
+        else:
+            from molli.storage import Collection, UkvCollectionBackend
+
+            c = Collection(path, UkvCollectionBackend, readonly=False, bufsize=bufsize)
+            with c.writing():
+                pass
+            with c.reading():
+                shown = {k.encode("latin-1"): c[k] for k in list(c.keys())}
+            present = J.judge(shown, cdict, sdict, "same-object-reopen", where)
+            with c.writing():
+                c[fresh_k.decode()] = fresh_v
+            with c.reading():
+                shown = {k.encode("latin-1"): c[k] for k in list(c.keys())}
+    except Exception as e:  # noqa
+        J.v(f"same-object-history:raises:{type(e).__name__}", where=where, err=repr(e)[:200])
+        return
+    must = dict(cdict)
+    must.update({k: sdict[k] for k in present})
+    must[fresh_k] = fresh_v
+    J.judge(shown, must, {}, "same-object-after-recovery", where)
+
+
 def recover(path, via, bufsize, puts):
     """recovery session on the real code; -> None or the exception"""
     try:
@@ -362,6 +405,8 @@ def run_prefix(spec, ctx):
             scan(rec_after)
         except ScanError as e:
             J.v("after-recovery:file-not-a-clean-record-sequence", where=where, err=str(e))
+        # ---- the same recovery through ONE long-lived object that is reopened again and again
+        same_object_history(J, ctx, ctx.tmp / "img2.ukv", after[:off], via, bufsize, cdict, sdict, where)
         # ---- second crash inside the recovery session
         clean_end = len(rec_after) - sum(5 + len(k) + len(v) for k, v in lost + fresh)
         span = len(rec_after) - clean_end
